@@ -1220,3 +1220,110 @@ Section TrArity.
     rewrite Hbad in Hok. discriminate.
   Qed.
 End TrArity.
+
+(* ---------------------------------------------------------------------- *)
+(* 14. LAT with FILL=n and no --lattice option, on the option tokens         *)
+(* ---------------------------------------------------------------------- *)
+Section NoOpt.
+  Context {T : Type} (S : Scalar T).
+
+  (* stepping over skippable options changes neither the FILL entry nor an
+     already present LAT entry into "absent" *)
+  Lemma parse_kw_skip_keeps trs (pre : list (tok (T:=T))) n :
+    skippable pre n ->
+    forall f suffix k, exists k',
+      parse_kw S (n + Datatypes.S f) trs (pre ++ suffix)%list k = parse_kw S (Datatypes.S f) trs suffix k' /\
+      k_fill k' = k_fill k /\ (k_lat k <> None -> k_lat k' <> None).
+  Proof.
+    induction 1 as [|e v l n H1 H2 Hs IH|e v l n z H1 H2 H3 H4 H5 Hs IH
+                    |e v l n H1 H2 H3 H4 H5 H6 Hs IH|e l n H1 H2 H3 H4 H5 H6 Hs IH];
+      intros f suffix k.
+    - exists k. repeat split; auto.
+    - change (Datatypes.S n + Datatypes.S f)%nat with (Datatypes.S (n + Datatypes.S f)).
+      cbn [app parse_kw]. cbv zeta. rewrite H1, H2.
+      match goal with |- context [parse_kw S _ trs (l ++ suffix)%list ?k0] =>
+        destruct (IH f suffix k0) as [k' [E [F L]]] end.
+      exists k'. repeat split; [exact E|rewrite F; reflexivity|exact L].
+    - change (Datatypes.S n + Datatypes.S f)%nat with (Datatypes.S (n + Datatypes.S f)).
+      cbn [app parse_kw]. cbv zeta. rewrite H1, H2, H3, H4, H5.
+      match goal with |- context [parse_kw S _ trs (l ++ suffix)%list ?k0] =>
+        destruct (IH f suffix k0) as [k' [E [F L]]] end.
+      exists k'. repeat split; [exact E|rewrite F; reflexivity|].
+      intros _. apply L. simpl. discriminate.
+    - change (Datatypes.S n + Datatypes.S f)%nat with (Datatypes.S (n + Datatypes.S f)).
+      cbn [app parse_kw]. cbv zeta. rewrite H1, H2, H3, H4, H5, H6.
+      match goal with |- context [parse_kw S _ trs (l ++ suffix)%list ?k0] =>
+        destruct (IH f suffix k0) as [k' [E [F L]]] end.
+      exists k'. repeat split; [exact E|rewrite F; reflexivity|exact L].
+    - change (Datatypes.S n + Datatypes.S f)%nat with (Datatypes.S (n + Datatypes.S f)).
+      cbn [app parse_kw]. cbv zeta. rewrite H1, H2, H3, H4, H5, H6.
+      destruct (IH f suffix k) as [k' [E [F L]]].
+      exists k'. repeat split; [exact E|exact F|exact L].
+  Qed.
+
+  (* ... LAT=1|2 ... FILL=n ... with only skippable options around: the keyword
+     loop ends with a FILL entry without ranges and a LAT entry *)
+  Lemma parse_kw_lat_fill trs (pre mid post : list (tok (T:=T))) n1 n2 n3 elat vlat z efill u :
+    skippable pre n1 -> skippable mid n2 -> skippable post n3 ->
+    prefix "imp" (tsp elat) = false -> contains_sub "fill" (tsp elat) = false ->
+    contains_sub "lat" (tsp elat) = true -> py_int (tsp vlat) = Some z ->
+    ((z =? 1)%Z || (z =? 2)%Z) = true ->
+    prefix "imp" (tsp efill) = false -> contains_sub "fill" (tsp efill) = true ->
+    has_colon u = false -> float_lit (tsp u) = true -> stops post ->
+    let toks := (pre ++ elat :: vlat :: mid ++ efill :: u :: post)%list in
+    exists k, parse_kw S (Datatypes.S (List.length toks)) trs toks kws0 = Ok k /\
+              (exists fr, k_fill k = Some fr /\ f_bounds fr = None) /\ k_lat k <> None.
+  Proof.
+    intros Hpre Hmid Hpost L1 L2 L3 L4 L5 F1 F2 Fc Fu Hstop toks.
+    pose proof (skippable_steps pre n1 Hpre) as B1.
+    pose proof (skippable_steps mid n2 Hmid) as B2.
+    pose proof (skippable_steps post n3 Hpost) as B3.
+    set (N := List.length toks).
+    assert (HN : N = (List.length pre + 2 + List.length mid + 2 + List.length post)%nat).
+    { unfold N, toks. rewrite app_length. simpl. rewrite app_length. simpl. lia. }
+    set (f3 := (N - n1 - n2 - n3 - 2)%nat).
+    assert (Hfuel : Datatypes.S N = (n1 + Datatypes.S (n2 + Datatypes.S (n3 + Datatypes.S f3)))%nat)
+      by (unfold f3; lia).
+    rewrite Hfuel. unfold toks.
+    destruct (parse_kw_skip_keeps trs pre n1 Hpre (n2 + Datatypes.S (n3 + Datatypes.S f3))
+                (elat :: vlat :: mid ++ efill :: u :: post)%list kws0) as [k1 [E1 [Ff1 _]]].
+    rewrite E1. cbn [parse_kw]. cbv zeta. rewrite L1, L2, L3, L4, L5.
+    match goal with |- context [parse_kw S _ trs (mid ++ _)%list ?k0] => set (k2 := k0) end.
+    destruct (parse_kw_skip_keeps trs mid n2 Hmid (n3 + Datatypes.S f3)
+                (efill :: u :: post)%list k2) as [k3 [E3 [Ff3 Fl3]]].
+    rewrite E3. cbn [parse_kw]. cbv zeta. rewrite F1, F2.
+    unfold parse_fill. rewrite Fc, Fu. unfold fill_params.
+    assert (Hspan : span numeric_lead post = ([], post)).
+    { destruct post as [|x post']; [reflexivity|]. simpl in Hstop. simpl. rewrite Hstop. reflexivity. }
+    rewrite Hspan. cbn [forallb negb List.length Nat.eqb bind].
+    match goal with |- context [parse_kw S _ trs post ?k0] => set (k4 := k0) end.
+    destruct (parse_kw_skip_keeps trs post n3 Hpost f3 [] k4) as [k5 [E5 [Ff5 Fl5]]].
+    rewrite app_nil_r in E5. rewrite E5. cbn [parse_kw].
+    exists k5. split; [reflexivity|]. split.
+    - rewrite Ff5. unfold k4. cbn [k_fill]. eexists. split; [reflexivity|reflexivity].
+    - apply Fl5. unfold k4. cbn [k_lat]. apply Fl3. unfold k2. cbn [k_lat]. discriminate.
+  Qed.
+
+  Theorem run_lattice_no_opt_rejected_syntactic (d : deckm (T:=T)) c
+      (pre mid post : list (tok (T:=T))) n1 n2 n3 elat vlat z efill u :
+    In c (d_cells d) ->
+    c_toks c = (pre ++ elat :: vlat :: mid ++ efill :: u :: post)%list ->
+    skippable pre n1 -> skippable mid n2 -> skippable post n3 ->
+    prefix "imp" (tsp elat) = false -> contains_sub "fill" (tsp elat) = false ->
+    contains_sub "lat" (tsp elat) = true -> py_int (tsp vlat) = Some z ->
+    ((z =? 1)%Z || (z =? 2)%Z) = true ->
+    prefix "imp" (tsp efill) = false -> contains_sub "fill" (tsp efill) = true ->
+    has_colon u = false -> float_lit (tsp u) = true -> stops post ->
+    (forall lat, parse_lattice (d_latopts d) = Ok lat -> lookup (c_id c) lat = None) ->
+    is_ok (validate S d) = false.
+  Proof.
+    intros Hin Htoks Hpre Hmid Hpost L1 L2 L3 L4 L5 F1 F2 Fc Fu Hstop Hno.
+    apply (run_lattice_no_opt_rejected S d c Hin Hno).
+    intros trs k Hk. rewrite Htoks in Hk.
+    destruct (parse_kw_lat_fill trs pre mid post n1 n2 n3 elat vlat z efill u
+                Hpre Hmid Hpost L1 L2 L3 L4 L5 F1 F2 Fc Fu Hstop) as [k' [Hk' [[fr [Hf Hb]] Hl]]].
+    cbv zeta in Hk'. rewrite Hk in Hk'. injection Hk' as <-.
+    destruct (k_lat k) as [z'|] eqn:El; [|contradiction].
+    exists fr, z'. auto.
+  Qed.
+End NoOpt.
